@@ -44,6 +44,7 @@ template <class M, int LAY> M read_mapping(Toks &tk) {
   std::array<T, R> sv{};
   if (lay == 2) for (size_t k = 0; k < R; ++k) sv[k] = static_cast<T>(tk.next_i());
   i128 dpv = 0; if (ctor == 2) dpv = tk.next_i();
+  if (ctor == 3) return M();                       // default construction: the values on the line are what it must yield
   E e(ev);
   constexpr int MK = (LAY == 0 || LAY == 1) ? 0 : (LAY == 2 ? 2 : 3);
   return MakeMap<M, MK>::make(e, sv, dpv, ctor);
